@@ -322,12 +322,11 @@ pub fn judge(sc: &Scenario) -> Judgement {
                 strip_nulls(&mut got);
                 j.probe("publishDiagnostics compared with the fresh analysis", 1);
                 if got != want {
-                    j.violate(
-                        ID,
-                        "published-diagnostics",
-                        format!("{class} published-diagnostics"),
-                        format!("publishDiagnostics #{k} differs from what a fresh analysis of the same text yields: {got} vs {want}"),
-                    );
+                    // the document itself equals the fresh analysis (checked above), so what
+                    // reached the client is another publication: ordering / delivery (C20)
+                    j.notes.push(format!(
+                        "other-property=C20 publishDiagnostics #{k} is not the one of update #{k} although the document is right"
+                    ));
                     reported = true;
                 }
             }
